@@ -113,7 +113,8 @@ def gen_row(rng, world: dict, year: int, line: int) -> dict:
     row['distance'] = f'{miles:07d}'
     # ---- dates, days, times --------------------------------------------------------
     kind = rng.choice(['single', 'week', 'dst-spring', 'dst-autumn', 'months', 'year',
-                       'open-from', 'open-to', 'open-both'])
+                       'open-from', 'open-to', 'open-both', 'open-to-from-previous-year',
+                       'open-from-to-next-year'])
     y = year
     if kind == 'single':
         d0 = date(y, 1, 1) + timedelta(days=rng.randint(0, 364))
@@ -138,6 +139,16 @@ def gen_row(rng, world: dict, year: int, line: int) -> dict:
             d0 = date(y, rng.randint(1, 12), rng.randint(1, 28))
     row['efffrom'] = '00000000' if kind in ('open-from', 'open-both') else d0.strftime('%Y%m%d')
     row['effto'] = '99999999' if kind in ('open-to', 'open-both') else d1.strftime('%Y%m%d')
+    if kind == 'open-to-from-previous-year':
+        # the stated start lies in the previous year, the open end still means 31 Dec of
+        # the DATA year
+        d0 = date(y - 1, 12, rng.randint(20, 31))
+        d1 = date(y, 1, rng.randint(3, 20)) if False else date(y, 12, 31)
+        row['efffrom'], row['effto'] = d0.strftime('%Y%m%d'), '99999999'
+    if kind == 'open-from-to-next-year':
+        d0 = date(y, 1, 1)
+        d1 = date(y + 1, 1, rng.randint(1, 12))
+        row['efffrom'], row['effto'] = '00000000', d1.strftime('%Y%m%d')
     days = sorted(rng.sample(range(1, 8), rng.randint(1, 7)))
     if rng.random() < 0.1:
         days = list(range(1, 8))
